@@ -215,7 +215,7 @@ func exploreShard(prog *ssa.Program, pkg *ssa.Package, spec HarnessSpec, tier, s
 	}
 	x := &Exec{prog: prog, harnessPkg: pkg, solver: NewSolver(spec.Solver), funcsSeen: map[string]bool{}, res: res,
 		shard: shard, nshards: n, splitDepth: spec.Split, tier: tier, activeKnown: active, maxSteps: 4000000,
-		globals: map[*ssa.Global]Obj{}, inited: map[string]bool{}, quoted: map[*Str]bool{}}
+		globals: map[*ssa.Global]Obj{}, inited: map[string]bool{}, quoted: map[*Str]bool{}, parseCache: map[string]Value{}}
 	if s := os.Getenv("GOSYM_MAXSTEPS"); s != "" {
 		x.maxSteps, _ = strconv.Atoi(s)
 	}
